@@ -19,7 +19,7 @@ ADAPTER_NAMES = ('std::filesystem::path', 'std::filesystem::directory_entry', 's
 ARITH = {
     'y': (1, ['bool']), 'c': (1, ['char']), 'b': (1, ['std::int8_t', 'signed char']),
     's': (2, ['std::int16_t', 'short']), 'i': (4, ['std::int32_t', 'int']),
-    'l': (8, ['std::int64_t', 'long', 'long long']), 'B': (1, ['std::uint8_t', 'unsigned char']),
+    'l': (8, ['std::int64_t', 'long', 'long long']), 'B': (1, ['std::uint8_t', 'unsigned char', 'vr::WireByte']),
     'S': (2, ['std::uint16_t', 'unsigned short']), 'I': (4, ['std::uint32_t', 'unsigned']),
     'L': (8, ['std::uint64_t', 'unsigned long', 'unsigned long long']),
     'f': (4, ['float']), 'd': (8, ['double']), 'D': (16, ['long double']),
@@ -228,7 +228,10 @@ class Gen:
         if k == 'A':
             c = ty[1]
             self.bump('arith-' + c)
-            return {'ty': ty, 'cxx': r.choice(ARITH[c][1]), 'kind': 'arith'}
+            choices = [x for x in ARITH[c][1] if not (x.startswith('vr::') and getattr(self, 'no_time_point', False))]   # vr:: types live in the harness header
+            if c == 'B' and getattr(self, 'force_wire_byte', False):
+                choices = ['vr::WireByte']
+            return {'ty': ty, 'cxx': r.choice(choices), 'kind': 'arith'}
         if k == 'E':
             name = ty[2] if not deser else ty[2]
             self.declare_enum(ty)
@@ -950,7 +953,12 @@ def make_program(rng, prefix, ncases):
     cases = []
     body = []
     for i in range(ncases):
-        if i < 3:
+        g.force_wire_byte = False
+        if i == 2:
+            # ... one of them of the user type with its own codec (an enum that travels as one byte)
+            ty = rng.choice([('Q', ('A', 'B')), ('Q', ('Q', ('A', 'B'))), ('T', [('Q', ('A', 'B')), ('A', 'B')])])
+            g.force_wire_byte = True
+        elif i < 3:
             # every program starts with plain sequences of scalars (block-wise copied / converted, proxy sequences)
             ty = ('Q', ('A', rng.choice('yycilBLd')))
         elif i == 3:
@@ -984,7 +992,7 @@ def make_program(rng, prefix, ncases):
             i, '\n  '.join(statics), rt['cxx'], expr, second, RT, X, F, ag, i, ', &w' if ag else ''))
         cases.append({'ty': ty, 'val': val, 'cxx': rt['cxx'], 'rt': drt, 'xt': xrt, 'val2': val2, 'ag': ag,
                       'fx': None if fx is None else {'cxx': F, 'dst': fx[1], 'fits': py_fits(fx[1], val)}})
-    src = PROLOGUE + '\n'.join(g.decls) + '\n\n' + '\n'.join(body) + '\n\nint main() {\n' + \
+    src = PROLOGUE + '\n'.join(g.decls) + '\n\n' + '\n'.join(body) + '\n\nint main() {\n  vr::probe_input_range();\n' + \
         ''.join('  case_%d();\n' % i for i in range(ncases)) + '  return 0;\n}\n'
     return src, cases, g.stats
 
